@@ -219,7 +219,8 @@ pub fn star(tier: &str, seed: u64) {
   let mut g = Sm::new(seed, "star");
   let n = if quick(tier) { 30 } else { 500 };
   for case in 0..n {
-    let t = gen_threshold(&mut g, tier);
+    // threshold 0 is a legal (if degenerate) parameter: reports are generated, never recovered
+    let t = if case % 11 == 4 { 0 } else { gen_threshold(&mut g, tier) };
     let m = { let n = if case % 10 == 3 { 4096 } else if case % 10 == 7 { *g.pick(&[255usize, 256, 257, 65535, 65536, 65537]) } else { gen_len(&mut g, 400) }; g.blob(n) };
     let e = { let n = if g.chance(1, 4) { 0 } else if case % 17 == 2 { *g.pick(&[255usize, 256, 300]) } else { g.range(1, 12) as usize }; g.blob(n) };
     let mg = MessageGenerator::new(SingleMeasurement::new(&m), t, &e);
